@@ -29,7 +29,7 @@ ASSUMPTIONS = [
 ]
 
 
-HIST_ALPHA = {'build': 8, 'apply': 2, 'let_const': 8, 'let_rename': 8, 'let_compose': 10, 'drop': 6, 'gc': 5, 'swap': 3, 'sift': 1, 'reorder_to': 1, 'declare': 1, 'var': 1}
+HIST_ALPHA = {'build': 8, 'apply': 2, 'let_const': 8, 'let_rename': 8, 'let_compose': 10, 'drop': 6, 'gc': 5, 'swap': 3, 'sift': 1, 'reorder_to': 1, 'declare': 1, 'var': 1, 'undeclare': 3, 'add_var': 1, 'quantify': 1, 'gc_roots': 1}
 
 
 def _hist_nontrivial(w):
@@ -37,7 +37,7 @@ def _hist_nontrivial(w):
 
 
 def _hist_plan(tier, seed):
-    cfgs = [dict(kind='bdd', nmax=4, init_vars=3), dict(kind='autoref', nmax=5, init_vars=4), dict(kind='autoref', nmax=5, init_vars=4, reordering=True, reorder_starts=4)]
+    cfgs = [dict(kind='bdd', nmax=4, init_vars=3), dict(kind='autoref', nmax=5, init_vars=4), dict(kind='autoref', nmax=5, init_vars=4, reordering=True, reorder_starts=4), dict(kind='bdd', nmax=10, init_vars=9, semantic=False), dict(kind='bdd', nmax=12, init_vars=11, semantic=False), dict(kind='autoref', nmax=10, init_vars=10, semantic=False)]
     return [dict(kind='history', seed=seed * 1000 + 500 + s, cfgs=cfgs,
                  examples=1200 if tier == 'thorough' else 200,
                  min_len=10, max_len=45)
